@@ -179,6 +179,7 @@ type Config struct {
 	MaxSteps      int
 	LoneLimit     int
 	MapBase       string
+	YieldOnMake   bool
 	ClockAdvance  bool
 	KeepTrace     bool
 	WallLimit     time.Duration
